@@ -180,7 +180,7 @@ NAMES = ["L_D_Oi", "D_L_T", "O_L_U", "T_Ob_Li", "D_i_Li", "L_Lit", "M_s_Si", "L_
 
 def l3_module(prop: str, tier: str) -> Module:
     quick = tier == "quick"
-    tmo = 90 if quick else 300
+    tmo = 180 if quick else 600
     m = Module(f"{prop.lower()}_l3").pre(SETUP)
     for name in NAMES:
         m.ob(f"l3_{name}", "a: Union[None, bool, int, str], b: Union[None, bool, int, str], k1: int, k2: int",
